@@ -184,6 +184,7 @@ func WorkerMain(args []string) int {
 	shard, _ := strconv.Atoi(args[2])
 	nshards, _ := strconv.Atoi(args[3])
 	from, _ := strconv.Atoi(args[4])
+	pinSelf(shard)
 	dl, _ := strconv.ParseInt(args[5], 10, 64)
 	progFile := args[6]
 	skip := map[int]bool{}
